@@ -122,6 +122,59 @@ def holder_case(rng):
         w.emit('xcheck R %s' % m.slot); w.emit('xcheck R %s' % t.slot); w.emit('xfeat %s' % m.slot); w.emit('xfeat %s' % t.slot)
     return w.lines
 
+def frame_case(rng):
+    """data frames that are used — as group members, as the frame of data-frame dimensions of several arrays, with sources and metadata —
+    deleted by name, id or handle: no group lists them any more, no dimension hands them out, their handles are invalid"""
+    w = World(rng, names=PLAIN)
+    w.open('ow')
+    b = w.mk('B', None, name='b')
+    frames = [w.mk('D', b, name='frame%d' % i) for i in range(3)]
+    arrs = [w.mk('A', b, name='arr%d' % i, extra=[3]) for i in range(3)]
+    groups = [w.mk('G', b, name='g%d' % i) for i in range(2)]
+    for g in groups:
+        for d in frames:
+            if rng.random() < 0.8: w.emit('link mD %s handle %s' % (g.slot, d.slot))
+        for a in arrs[:2]: w.emit('link mA %s handle %s' % (g.slot, a.slot))
+    for a in arrs:
+        for d in rng.sample(frames, 2):
+            w.emit('adim %s frame %s 0' % (a.slot, d.slot))
+    if rng.random() < 0.5: w.reopen('rw')
+    order = list(frames); rng.shuffle(order)
+    for v in order[:rng.randint(1, 3)]:
+        aliases = []
+        for g in groups:
+            sl = w.fresh()
+            w.emit('getlinkh %s mD %s idof %s' % (sl, g.slot, v.slot)); aliases.append(sl)
+        w.emit('dump')
+        how = rng.choice(['name', 'handle', 'idof'])
+        if how == 'idof':
+            w.emit('del D %s idof %s' % (b.slot, v.slot)); w.kill(v)
+        else:
+            w.delete(v, how)
+        w.emit('dump')
+        w.emit('valid %s deleted' % v.slot)
+        for sl in aliases: w.emit('valid %s deleted' % sl)
+        for g in groups: w.emit('xlinks mD %s' % g.slot)
+    return w.lines
+
+def many_holders_case(rng, n):
+    """ONE target linked from n holders (a source attached to n arrays, an array referenced by n tags and member of a group): after
+    its deletion none of them exposes it — however many there are"""
+    w = World(rng, names=PLAIN)
+    w.open('ow')
+    b = w.mk('B', None, name='b')
+    src = w.mk('O', b, name='subject'); shared = w.mk('A', b, name='shared', extra=[3])
+    arrs = [w.mk('A', b, name='a%d' % i, extra=[2]) for i in range(n)]
+    tags = [w.mk('T', b, name='t%d' % i) for i in range(n)]
+    g = w.mk('G', b, name='g')
+    for a in arrs: w.emit('link src %s handle %s' % (a.slot, src.slot))
+    for t in tags: w.emit('link ref %s handle %s' % (t.slot, shared.slot))
+    w.emit('link mA %s handle %s' % (g.slot, shared.slot))
+    if rng.random() < 0.5: w.reopen('rw')
+    for v in (src, shared):
+        w.emit('dump'); w.delete(v, rng.choice(['name', 'handle'])); w.emit('dump'); w.emit('valid %s deleted' % v.slot)
+    return w.lines
+
 def history(rng, tier):
     w = World(rng, names=PLAIN)
     w.open('ow')
@@ -193,6 +246,8 @@ def cases(tier, seed, rng):
     from vlib.runner import Case
     n = 60 if tier == 'quick' else 1500
     out = [Case(with_hdump(history(rng, tier), rng, 0.5), 'gen:graph') for _ in range(n)]
+    out += [Case(with_hdump(frame_case(rng), rng, 0.5), 'gen:frames-in-use') for _ in range(4 if tier == 'quick' else 80)]
+    out += [Case(many_holders_case(rng, k), 'gen:many-holders') for k in ((40,) if tier == 'quick' else (33, 40, 64, 130))]
     out += [Case(with_hdump(holder_case(rng), rng, 0.5), 'gen:holder-fields') for _ in range(8 if tier == 'quick' else 150)]
     # link paths around 256 characters ("/data/b/data_arrays/<name>", "/data/b/tags/<name>/references/<id>", "/data/b/groups/<name>/data_arrays/<id>")
     for length in (range(228, 246) if tier == 'quick' else range(150, 300)):
